@@ -144,8 +144,14 @@ func (ex *Exec) checkPost(fr *Frame, st *State, vs []*Val, k int, pos string) {
 		}
 	}
 	for i, c := range ct.Ensures {
-		g := ex.evalBool(fr, c.Expr, st, ex.oldState, env)
-		ex.oblige(st, "post", fmt.Sprintf("post[%s]@return[%d]", clauseLabel(c, i), k), g, c.Tags, pos, "ensures "+c.Text)
+		cj := ex.rootCtx(fr, st, ex.oldState, env).conjuncts(c.Expr)
+		for j, x := range cj {
+			nm := fmt.Sprintf("post[%s]@return[%d]", clauseLabel(c, i), k)
+			if len(cj) > 1 {
+				nm = fmt.Sprintf("post[%s.%d]@return[%d]", clauseLabel(c, i), j+1, k)
+			}
+			ex.oblige(st, "post", nm, x.T, c.Tags, pos, "ensures "+x.Text)
+		}
 	}
 }
 
